@@ -147,8 +147,59 @@ def run_threaded(case):
     return None, info
 
 
+def run_giant(case):
+    """Hundreds of thousands of observations on one tally (a long replication with a
+    busy statistic): integer data, exact sums as reference, relative tolerance 1e-7."""
+    import random as _random
+    from fractions import Fraction
+    rng = _random.Random(case["seed"])
+    info = {"accepted": case["n"], "rejected": 0, "special": 1, "closed": 0, "published": 0}
+    if case["kind2"] == "weighted":
+        st = WeightedTally("w")
+    else:
+        st = TimestampWeightedTally("p")
+    s0 = s1 = s2 = 0
+    t = 0
+    prev = None
+    for _ in range(case["n"]):
+        v = rng.randrange(0, 10)
+        if case["kind2"] == "weighted":
+            w = rng.randrange(1, 4)
+            st.register(float(w), float(v))
+            s0 += w
+            s1 += w * v
+            s2 += w * v * v
+        else:
+            dt = rng.randrange(1, 4)
+            if prev is not None:
+                s0 += dt
+                s1 += dt * prev
+                s2 += dt * prev * prev
+            t += dt
+            st.register(float(t), float(v))
+            prev = v
+    if case["kind2"] != "weighted":
+        st.end_observations(float(t + 2))
+        s0 += 2
+        s1 += 2 * prev
+        s2 += 2 * prev * prev
+    mean = Fraction(s1, s0)
+    var = Fraction(s2, s0) - mean * mean
+    for name, exact in (("weighted_sum", Fraction(s1)), ("weighted_mean", mean),
+                        ("weighted_variance", var)):
+        got = getattr(st, name)()
+        if not isinstance(got, float) or abs(Fraction(got) - exact) > abs(exact) * Fraction(1, 10 ** 7):
+            return ("getter", "after %d observations on one %s tally %s() returns %r, the "
+                    "definition gives %.12g (relative tolerance 1e-7)"
+                    % (case["n"], case["kind2"], name, got, float(exact))), info
+    return None, info
+
+
 def generate(seed, tier, idx=0):
     rng = common.rng_for(seed, "case")
+    if rng.random() < (1e-4 if tier == "quick" else 1e-3):
+        return {"kind": "giant", "kind2": rng.choice(["weighted", "timestamp"]), "variant": "plain",
+                "n": rng.choice([260000, 520000]), "seed": rng.getrandbits(32), "ops": []}
     if rng.random() < 0.15:
         return gen_threaded(rng, seed)
     kind = rng.choice(["weighted", "timestamp"])
@@ -439,7 +490,10 @@ def run(case):
 
 
 def execute(case):
-    f, info = run_threaded(case) if case.get("threaded") else run(case)
+    if case["kind"] == "giant":
+        f, info = run_giant(case)
+    else:
+        f, info = run_threaded(case) if case.get("threaded") else run(case)
     res = {"clean": f is None or f[0] != "harness", "digest": common.digest([case, f and f[0], info.get("schedule")]),
            "counters": {"kind:" + case["kind"]: 1, "variant:" + case["variant"]: 1,
                         "fault:rejected_input": info["rejected"],
